@@ -146,7 +146,7 @@ class C05(Base):
             seen.add((fam, b))
             if len(seen) > (90 if tier == 'quick' else 1500):
                 break
-            for tail in ('eof',):
+            for tail in (('eof', 'k11') if len(seen) % 4 == 0 and len(b) <= 6 else ('eof',)):
                 self.add(cs, fam, b, [], [], tail, dist, 'exh')
                 for cuts in compositions(len(b)):
                     starts = [0] + cuts
@@ -164,7 +164,8 @@ class C05(Base):
                 variants.append(b + bytes(rng.getrandbits(8) for _ in range(3)))  # next packet's bytes follow
             for v in variants:
                 for _ in range(nsch):
-                    tail = rng.choice(['eof', 'eof', 'k4', 'k6'])
+                    # (a transport error is a result like any other: WouldBlock and Interrupted are not "not ready")
+                    tail = rng.choice(['eof', 'eof', 'k4', 'k6', 'k11', 'k3', 'o5'])
                     fi = frame_info(v)
                     huge = fi is not None and fi[1] > 200000     # the harness clones the state (buffer) at every Pending
                     if len(v) < 300:
@@ -219,6 +220,9 @@ class C05(Base):
                 return 'consumed %s bytes, the uninterrupted read consumed %s' % (f.get('used'), rf.get('used'))
         if f.get('pend') != f.get('rpend'):
             return 'decoder returned Pending %s times, the transport %s times' % (f.get('pend'), f.get('rpend'))
+        if f.get('wake') == 'lost':
+            return ('decoder returned Pending without the caller\'s waker having been handed to the transport (the transport '
+                    'wakes the waker it is given; the caller\'s was never woken): the task would never be polled again')
         caps = [int(x) for x in f.get('caps', '-').split(',')] if f.get('caps', '-') != '-' else []
         sizes = f.get('sizes', '-').split(',') if f.get('sizes', '-') != '-' else []
         if len(caps) != len(sizes):
@@ -272,6 +276,7 @@ class C07(Base):
         cs = self.corpus()
         self.meta = {}
         ps, dist = both_pools(rng, tier, n_random=30 if tier == 'quick' else 400)
+        spelled = []
         for fam, p in ps:
             b = pk.encode(fam, p)
             maxfield = 65530 < len(b) < 65700        # one maximal field: always kept
@@ -298,6 +303,35 @@ class C07(Base):
             self.meta[c] = ('suffix', 'ok ' + pk.tok(fam, p))
             cs.append(c)
             hist(dist, 'suffix')
+            # legal spellings the library's own encoder never emits (short forms spelled out, explicit empty property
+            # sections, permuted properties): their strict prefixes are incomplete too, and a suffix changes nothing
+            if n <= 200 and rng.random() < (0.35 if tier == 'quick' else 1.0):
+                for sb, _minimal in FR.spellings(fam, p, rng):
+                    if sb != b:
+                        spelled.append((fam, p, sb))
+        for fam, p, sb in props.same_packet_spellings(spelled, 'C07'):
+            m = len(sb)
+            sfx = bytes(rng.getrandbits(8) for _ in range(rng.randint(1, 9)))
+            for k in (list(range(m)) if m <= 24 else sorted(set(list(range(8)) + [m - 1, m - 2, m - 3] + [rng.randrange(m) for _ in range(4)]))):
+                c = 'dec %s %s' % (fam, pk.hx(sb[:k]))
+                self.meta.setdefault(c, ('prefix', None))
+                cs.append(c)
+                hist(dist, 'cut:spelling')
+            c = 'dec %s %s' % (fam, pk.hx(sb + sfx))
+            self.meta.setdefault(c, ('suffix', 'ok ' + pk.tok(fam, p)))
+            cs.append(c)
+            hist(dist, 'suffix:spelling')
+        # prefixes of packets too large to materialise: the first bytes of a PUBLISH / CONNECT / SUBSCRIBE whose remaining
+        # length is the maximum (or just below): incomplete, whatever the declared size
+        for fam in ('v3', 'v5'):
+            for cb, body in ((0x30, b'\x00\x01a'), (0x32, b'\x00\x01a\x00\x07'), (0x10, b'\x00\x04MQTT'), (0x82, b'\x00\x07')):
+                for rlb in (b'\xff\xff\xff\x7f', b'\xfe\xff\xff\x7f', b'\x80\x80\x80\x01'):
+                    fr = bytes([cb]) + rlb + body
+                    for k in range(1, len(fr) + 1):
+                        c = 'dec %s %s' % (fam, pk.hx(fr[:k]))
+                        self.meta.setdefault(c, ('prefix', None))
+                        cs.append(c)
+                        hist(dist, 'cut:huge-declared')
         return cs, dist
 
     def judge(self, case, line, spec, ctx, i):
@@ -311,6 +345,10 @@ class C07(Base):
             return None
         kind, want = self.meta.get(case, (None, None))
         if kind == 'prefix':
+            b = bytes.fromhex(t[2][1:])
+            if frame_info(b) is None and not (len(b) >= 5 and all(x & 0x80 for x in b[1:5])) and f.get('hdr') != 'err IoError UnexpectedEof':
+                return ('Header::decode on %d byte(s) of a fixed header that is not complete yet: %s, expected an end-of-input error'
+                        % (len(b), f.get('hdr', '')[:80]))
             if f.get('block') != 'none':
                 return 'blocking decoder on a strict prefix of a valid packet: %s, expected Ok(None)' % f.get('block', '')[:100]
             for fe in ('async', 'poll'):
@@ -351,16 +389,30 @@ class C08(Base):
             b = pk.encode(fam, p)
             if len(b) <= 20000:
                 by[fam].append((p, b))
+        # legal spellings (of exactly the same packet) the library's own encoder never emits
+        cand = []
+        for fam in by:
+            for p, b in rng.sample(by[fam], min(len(by[fam]), 150 if tier == 'quick' else 1500)):
+                if len(b) < 300:
+                    cand += [(fam, p, x) for x, _m in FR.spellings(fam, p, rng) if x != b]
+        respell = {}
+        for fam, p, x in props.same_packet_spellings(cand, 'C08'):
+            respell.setdefault((fam, pk.tok(fam, p)), []).append(x)
         nseq = 250 if tier == 'quick' else 4000
         for _ in range(nseq):
             fam = rng.choice(['v3', 'v5'])
             k = rng.choice([1, 2, 3, 5, 8, 13, 40])
             seq = []
             total = 0
+            spelled = False
             for _ in range(k):
                 p, b = rng.choice(by[fam])
                 if total + len(b) > 60000:
                     continue
+                sp = respell.get((fam, pk.tok(fam, p)))
+                if sp and rng.random() < 0.5:
+                    b = rng.choice(sp)
+                    spelled = True
                 seq.append((p, b))
                 total += len(b)
             if rng.random() < 0.3:       # sprinkle empty-body packets
@@ -370,7 +422,8 @@ class C08(Base):
             if not seq:
                 continue
             stream = b''.join(b for _, b in seq)
-            for fe in ('block', 'async', 'poll'):
+            # (the blocking loop of the harness advances by encode_len() of what it decoded, which is the canonical length)
+            for fe in (('block', 'async', 'poll') if not spelled else ('async', 'poll')):
                 for chunk in rng.sample([1, 2, 3, 7, 64, 100000], 2 if tier == 'quick' else 4):
                     if fe == 'block' and chunk != 1 and rng.random() < 0.7:
                         continue
@@ -475,6 +528,30 @@ class C13(Base):
                     self.meta[c] = ('frame', nm, lvl)
                     cs.append(c)
                     hist(dist, 'connect-level')
+        # CONNECT frames with corrupted names of every length (shorter than "MQTT", empty, 65,535 bytes), followed by more bytes
+        long_names = [b'', b'M', b'MQ', b'MQT', b'MQTTT', b'mqtt', 'MQT\u0166'.encode(), b'N' * 65535, b'MQTT' + b'x' * 65531, b'MQIsd', b'MQIsdpp']
+        for nm in long_names:
+            for lvl in (0, 3, 4, 5, 6, 255):
+                body = bytes([len(nm) >> 8, len(nm) & 255]) + nm + bytes([lvl, 2, 0, 10, 0, 0, 0, 1, 99, 0, 0])
+                for fam in ('v3', 'v5'):
+                    for sfx in (b'', b'\xc0\x00\xd0\x00'):
+                        c = 'dec %s %s' % (fam, pk.hx(bytes([0x10]) + pk.vbi(len(body)) + body + sfx))
+                        self.meta[c] = ('frame', nm, lvl)
+                        cs.append(c)
+                        hist(dist, 'connect-bad-name')
+        # the refusal needs the protocol name and level only: a CONNECT of the other family cut anywhere after the level
+        for c0, (fam, p, n) in list(self.meta.items()):
+            if not c0.startswith('cross ') or n > 400 or rng.random() < 0.5:
+                continue
+            b = pk.encode(fam, p)
+            hl = frame_info(b)[0]
+            end = hl + 2 + (6 if p[1] == 3 else 4) + 1
+            for k in sorted(set([end, end + 1, end + 2, (end + n) // 2, n - 1])):
+                if end <= k < n:
+                    c = 'dec %s %s' % (c0.split()[1], pk.hx(b[:k]))
+                    self.meta[c] = ('cut', fam, p[1])
+                    cs.append(c)
+                    hist(dist, 'cross-truncated')
         return cs, dist
 
     @staticmethod
@@ -499,6 +576,15 @@ class C13(Base):
             return None
         m = self.meta.get(case)
         if m is None:
+            return None
+        if t[0] == 'dec' and m[0] == 'cut':
+            want = 'err UnexpectedProtocol %d' % m[2]
+            for fe in ('block', 'async', 'poll'):
+                r = f.get(fe, '')
+                # (the poll decoder needs the whole frame before it looks at the body: it may still report end of input)
+                if r != want and not (fe == 'poll' and r == 'err IoError UnexpectedEof'):
+                    return ('%s decoder on a %s CONNECT cut after the protocol level: %s, expected %s (name and level are there)'
+                            % (fe, m[1], r[:100], want))
             return None
         if t[0] == 'dec':
             _, nm, lvl = m
@@ -562,12 +648,13 @@ class C13(Base):
 @register
 class C14(Base):
     id = 'C14'
-    ops = ['faultr', 'wr', 'errconv']
+    ops = ['faultr', 'wr', 'errconv', 'sched']
     rule = ('valid packets of every type: a read error of each of 6 kinds and EOF injected at every byte position 0..len-1 '
             '(all positions up to 300 bytes, sampled beyond) for the async and poll decoders; a write error of each kind '
             'or a zero-length write after every accepted-byte budget for encode_async and the streaming body encoder; the '
             'From conversions for 20 io::ErrorKinds and every error variant. Non-trivial: fault position >= 1.')
     RKINDS = [1, 4, 5, 6, 7, 11]          # InvalidData ConnectionReset BrokenPipe TimedOut Other WouldBlock
+    OKINDS = [4, 5, 6, 8, 9, 10, 14]      # kinds with a Linux errno: ECONNRESET EPIPE ETIMEDOUT ECONNABORTED ENOTCONN EACCES ECONNREFUSED
 
     def cases(self, rng, tier):
         cs = self.corpus()
@@ -589,6 +676,18 @@ class C14(Base):
                         cs.append('faultr %s %s %s %d k%d' % (fam, fe, pk.hx(b), k, kd))
                         hist(dist, 'read-fault')
                     cs.append('faultr %s %s %s %d eof' % (fam, fe, pk.hx(b), k))
+                    # the kind as a socket reports it (an io::Error built from a raw OS error code)
+                    if rng.random() < 0.5:
+                        cs.append('faultr %s %s %s %d o%d' % (fam, fe, pk.hx(b), k, rng.choice(self.OKINDS)))
+                        hist(dist, 'read-fault:raw-os-error')
+                # the fault arriving in the same poll call as earlier bytes, after Pendings, after a re-created future:
+                # the error must come out at once (no extra Pending), with its kind
+                if n <= 300 and k >= 1 and rng.random() < 0.25:
+                    kd = rng.choice(self.RKINDS)
+                    c = 'sched %s %s k%d' % (fam, random_schedule(b[:k], rng), kd)
+                    self.meta[c] = ('sched', kd)
+                    cs.append(c)
+                    hist(dist, 'read-fault:scheduled')
             # complete delivery then the fault is never reached
             cs.append('faultr %s async %s %d k4' % (fam, pk.hx(b), n))
             cs.append('faultr %s poll %s %d k4' % (fam, pk.hx(b), n))
@@ -657,6 +756,17 @@ class C14(Base):
                 if f.get('iseof') != '0':
                     return 'is_eof() true for an I/O error of kind %s' % kind
             return None
+        if t[0] == 'sched':
+            m = self.meta.get(case)
+            if m is None:
+                return None
+            kind = KINDS[m[1]]
+            if f.get('res') != 'err IoError ' + kind:
+                return 'poll decoder under a schedule ending in a read error %s: %s' % (kind, f.get('res', '')[:100])
+            if f.get('pend') != f.get('rpend'):
+                return ('poll decoder returned Pending %s times, the transport %s times, on a schedule ending in a read error %s'
+                        % (f.get('pend'), f.get('rpend'), kind))
+            return None
         if t[0] == 'wr':
             m = self.meta.get(case)
             if m is None:
@@ -703,7 +813,7 @@ class C14(Base):
 
     def nontrivial(self, case, line):
         t = case.split()
-        return (t[0] == 'faultr' and int(t[4]) >= 1) or (t[0] == 'wr' and '.' in t[-1])
+        return (t[0] == 'faultr' and int(t[4]) >= 1) or (t[0] == 'wr' and '.' in t[-1]) or t[0] == 'sched'
 
 
 # ====================================================================== C20
@@ -798,7 +908,6 @@ class C20(Base):
 class C04(Base):
     id = 'C04'
     ops = ['dec', 'hdr', 'code', 'sched']
-    profiles = ('release',)
     rule = ('complete frames (header + exactly the declared body) of both families: grammar-generated valid packets, legal '
             'non-canonical spellings (short forms spelled out, permuted and interleaved properties), the same frames with '
             'one injected violation (fault catalogue), byte-level mutations re-framed to be complete, random bodies under '
